@@ -454,6 +454,24 @@ class Gen(object):
         return {'op': 'new_cont', 'c': self.rng.randrange(len(self.w.containers)),
                 'fmt': self.fmt() if self.rng.random() < 0.8 else [None, None, None], 'kw': self.modes()}
 
+    def g_store_cont(self):
+        r = self.rng
+        if not self.w.containers:
+            return self.g_cont_new()
+        c = r.randrange(len(self.w.containers))
+        via = r.choice(['call', 'set_val', 'raw', 'setitem'])
+        if via == 'setitem':
+            k, i = self.pick(lambda o: self.is_arr(o) and self.is_real(o))
+            if k is None:
+                via = 'call'
+            else:
+                sh = tuple(np.asarray(self.w.slots[i].obj.val).shape)
+                return {'op': 'store_cont', 'slot': k, 'c': c, 'via': via, 'index': self.index_for(sh)}
+        k, _ = self.pick(self.is_real)
+        if k is None:
+            return self.g_new()
+        return {'op': 'store_cont', 'slot': k, 'c': c, 'via': via}
+
     def g_cont_new(self):
         r = self.rng
         fmt = self.fmt()
@@ -476,6 +494,11 @@ class Gen(object):
                 spec = ['l', [spec, spec]]
             return {'op': 'cont_new', 'spec': spec}
         spec = self.array_spec(fmt, self.shape())
+        if r.random() < 0.2:
+            # an int64 array of in-range codes (what a caller would pass with raw=True)
+            lo, hi = Q.bounds(fmt[0], fmt[1])
+            sh = self.shape()
+            spec = ['a', 'int64', list(sh), [[r.randint(lo, hi), 0] for _ in range(int(np.prod(sh)))]]
         if r.random() < 0.25 and 'strings' in self.p.groups and spec[0] in ('l', 't'):
             # decimal strings inside the list
             def to_s(sp):
@@ -1017,6 +1040,7 @@ class Gen(object):
             add(4, self.g_new_like)
             add(2, self.g_new_tplkw, 'templates')
             add(2, self.g_new_cont, 'containers')
+            add(2, self.g_store_cont, 'containers')
             add(2, self.g_cont_new, 'containers')
             add(1, self.g_cfg_new, 'containers')
             add(2, self.g_new_cfg, 'containers')
